@@ -211,6 +211,7 @@ def validate_init(ctx, c01, n):
         e = "ok " + " ".join([
             ol(r._bysetpos), ol(r._bymonth), ol(r._byyearday), ol(r._byeaster),
             ilist(r._bymonthday) + "/" + ilist(r._bynmonthday), ol(r._byweekno),
+            ol(r._byweekday) + "/" + ("-" if r._bynweekday is None else ilist([x for q in r._bynweekday for x in q])),
             ol(r._byhour), ol(r._byminute), ol(r._bysecond),
             "-" if r._timeset is None else ilist([x for t in r._timeset for x in (t.hour, t.minute, t.second)])])
         reqs.append("rrgen.init " + c01.wire(c)); exp.append(("ok", e))
